@@ -1,4 +1,4 @@
 \* behaviour generation: every action sequence of length MaxLen (history is part of the state)
-CONSTANTS Size = 4  DryRunWalk = "logical"  MaxLen = 7
+CONSTANTS Size = 4  DryRunWalk = "logical"  MaxLen = 6
 SPECIFICATION Spec
 INVARIANTS GenPrint
